@@ -771,7 +771,7 @@ def run(ctx, res):
     for _ in range(ctx.n(150, 3000)):
         streams.append(("stuck",) + stuck_history(rng))
     rng = ctx.sub_rng("conc")
-    for _ in range(ctx.n(140, 2500)):
+    for _ in range(ctx.n(100, 2500)):
         streams.append(("conc",) + S.conc_history(rng))
     rng = ctx.sub_rng("config")
     streams = [(kind, c if kind == "corpus" else S.with_config(rng, c), o) for kind, c, o in streams]
